@@ -64,7 +64,7 @@ struct SocketTlsImpl final : public SocketImpl
 
   void Connect(SockAddrView const &connectAddr) override;
 
-  void DriverQuery(short &events) override;
+  bool DriverQuery(short &events) override;
   void DriverPending() override;
 
   void Shutdown();
